@@ -107,9 +107,15 @@ AsymBase == [
 \*   defect: <<>> for a well-formed JWK, otherwise a list of <<member, class>>
 \*   defects the driver applies to the exported JWK; bad = 1 iff defective.
 WithDefect(k, member, cls) == [k EXCEPT !.defect = <<<<member, cls>>>>, !.bad = 1]
+\* fixture keys whose key FILE is of the restricted type id-RSASSA-PSS (same numbers as an RSA key; the type is
+\* part of the key: key2jwk states it as "alg":"PS256", jwk2key must write it back).  Kept apart from AsymBase:
+\* the JWK-import matrices enumerate DOMAIN AsymBase and a JWK has no such type.
+PssBase == [ rsapss2048a |-> [kty |-> "RSA", bits |-> 2048, crv |-> NONE] ]
+PssBases == DOMAIN PssBase
+BaseRec(b) == IF b \in PssBases THEN PssBase[b] ELSE AsymBase[b]
 AsymKey(base, priv, alg, kid) ==
-  [base |-> base, kty |-> AsymBase[base].kty, bits |-> AsymBase[base].bits,
-   crv |-> AsymBase[base].crv, var |-> "a", priv |-> priv, alg |-> alg, kid |-> kid,
+  [base |-> base, kty |-> BaseRec(base).kty, bits |-> BaseRec(base).bits,
+   crv |-> BaseRec(base).crv, var |-> "a", priv |-> priv, alg |-> alg, kid |-> kid,
    use |-> NONE, ops |-> <<>>, defect |-> <<>>, bad |-> 0]
 
 OctKey(bytes, var, alg, kid) ==
